@@ -51,12 +51,14 @@ impl ContextInformation for HPlan {
 }
 
 fn frac_to_cw(f: Frac) -> usize {
-    // smallest integer >= f (Frac's numerator is private to its module)
-    let mut c: u32 = 0;
-    while c < 64 && Frac::from(c) < f {
-        c += 1;
+    // smallest integer >= f (Frac's numerator is private to its module); written
+    // out without a loop so that it does not dictate the unwinding bound
+    let mut c: usize = 0;
+    macro_rules! up {
+        ($($v:expr),*) => { $( if Frac::from($v as u32) < f { c = $v + 1; } )* };
     }
-    c as usize
+    up!(0, 1, 2, 3, 4, 5, 6, 7, 8, 9, 10, 11, 12, 13, 14, 15, 16, 17, 18, 19, 20, 21, 22, 23);
+    c
 }
 
 fn pick_caps() -> [usize; 3] {
@@ -152,15 +154,15 @@ macro_rules! cplh {
         }
     };
 }
-cplh!(cpl_ascii_3, 66, vd::M_ASCII, 3);
-cplh!(cpl_c40_2, 66, vd::M_C40, 2);
-cplh!(cpl_c40_3, 66, vd::M_C40, 3);
-cplh!(cpl_text_2, 66, vd::M_TEXT, 2);
-cplh!(cpl_x12_3, 66, vd::M_X12, 3);
-cplh!(cpl_x12_4, 66, vd::M_X12, 4);
-cplh!(cpl_x12_5, 66, vd::M_X12, 5);
-cplh!(cpl_edifact_2, 66, vd::M_EDIFACT, 2);
-cplh!(cpl_edifact_3, 66, vd::M_EDIFACT, 3);
-cplh!(cpl_edifact_4, 66, vd::M_EDIFACT, 4);
-cplh!(cpl_edifact_5, 66, vd::M_EDIFACT, 5);
-cplh!(cpl_b256_2, 66, vd::M_B256, 2);
+cplh!(cpl_ascii_3, 11, vd::M_ASCII, 3);
+cplh!(cpl_c40_2, 11, vd::M_C40, 2);
+cplh!(cpl_c40_3, 11, vd::M_C40, 3);
+cplh!(cpl_text_2, 11, vd::M_TEXT, 2);
+cplh!(cpl_x12_3, 11, vd::M_X12, 3);
+cplh!(cpl_x12_4, 11, vd::M_X12, 4);
+cplh!(cpl_x12_5, 11, vd::M_X12, 5);
+cplh!(cpl_edifact_2, 11, vd::M_EDIFACT, 2);
+cplh!(cpl_edifact_3, 11, vd::M_EDIFACT, 3);
+cplh!(cpl_edifact_4, 11, vd::M_EDIFACT, 4);
+cplh!(cpl_edifact_5, 11, vd::M_EDIFACT, 5);
+cplh!(cpl_b256_2, 11, vd::M_B256, 2);
